@@ -464,3 +464,14 @@ impl<T: Qcow2IoOps> Qcow2Dev<T> {
         Ok(())
     }
 }
+
+#[cfg(feature = "verif-hooks")]
+impl<T: Qcow2IoOps> Qcow2Dev<T> {
+    /// exposes the private top-table-offset -> slice-key maps
+    pub fn verif_slice_keys_of_top_off(&self, off: u64) -> (usize, usize) {
+        (
+            self.rb_slice_key_of_rt_off(off),
+            self.l2_slice_key_of_l1_off(off),
+        )
+    }
+}
